@@ -610,8 +610,11 @@ def map_store(ex, st, m: ty.MapV, k, v, node):
         had = m.has(kk)
         keys = ty.SeqV(keys.elem, [z3.If(had, keys.arrs[0], z3.Store(keys.arrs[0], keys.len, kc))],
                        z3.If(had, keys.len, keys.len + 1))
-    return ty.MapV(m.key, m.val, z3.Store(m.dom, kc, z3.BoolVal(True)),
-                   [z3.Store(a, kc, c) for a, c in zip(m.arrs, vc)], keys)
+    new = ty.MapV(m.key, m.val, z3.Store(m.dom, kc, z3.BoolVal(True)),
+                  [z3.Store(a, kc, c) for a, c in zip(m.arrs, vc)], keys)
+    from . import maplib
+    maplib.assume_map_wf(st, new)
+    return new
 
 
 def mat_store(ex, st, m, idx, v, node):
@@ -627,13 +630,19 @@ def del_item(ex, st, cont, idx, node):
         del cont.d[k]
         return None
     if isinstance(cont, ty.MapV):
+        if isinstance(idx, ty.OptV) and not isinstance(cont.key, ty.OptT):
+            ex.safety(st, "del-none-key", z3.Not(idx.isnone), node)
+            idx = idx.val
         kk = ex.coerce(cont.key, idx, node)
         (kc,) = ty.pack(cont.key, kk)
         ex.safety(st, "del-missing-key", cont.has(kk), node)
         keys = cont.keys
         if keys is not None:
             keys = seq_remove_value(ex, st, keys, kc)
-        return ty.MapV(cont.key, cont.val, z3.Store(cont.dom, kc, z3.BoolVal(False)), cont.arrs, keys)
+        new = ty.MapV(cont.key, cont.val, z3.Store(cont.dom, kc, z3.BoolVal(False)), cont.arrs, keys)
+        from . import maplib
+        maplib.assume_map_wf(st, new)
+        return new
     raise _U(f"del on {cont!r}", node)
 
 
@@ -1178,6 +1187,28 @@ def m_np_random_normal(ex, st, args, kwargs, node):
     return _out(r, st)
 
 
+def m_random_choice(ex, st, args, kwargs, node):
+    """random.choice(seq): some element of the sequence (every choice is covered); IndexError on an empty sequence"""
+    (v,) = args
+    items = _items_of(ex, st, v, node)
+    if items is not None:
+        v = ex.coerce(ty.type_of(ex.to_storable(PyList(items))), PyList(items), node)
+    if not isinstance(v, ty.SeqV):
+        raise _U(f"random.choice of {v!r}", node)
+    res = []
+    for taken, s2 in ex.branch(st, v.len > 0, f"nonempty@L{getattr(node, 'lineno', 0)}"):
+        if not taken:
+            res.append(_raise("IndexError", s2, node))
+            continue
+        w = z3.Int(ty.fresh_name("choice"))
+        s2.assume(z3.And(w >= 0, w < v.len))
+        s2.ghost.setdefault("__random__", PyList()).items.append(w)
+        r = v.at(w)
+        ex.assume_wf(s2, v.elem, r)
+        res.extend(_out(r, s2))
+    return res
+
+
 def m_np_isclose(ex, st, args, kwargs, node):
     a, b = args[0], args[1]
     atol = kwargs.get("atol", Fraction("1e-8"))
@@ -1302,6 +1333,7 @@ MODULE_FUNCS = {
     "numpy.clip": m_np_clip,
     "copy.copy": m_copy,
     "math.ceil": m_math_ceil,
+    "random.choice": m_random_choice,
 }
 MODULE_CONSTS = {}
 
